@@ -330,6 +330,30 @@ func c20Chunks(tier string) []SeqChunk {
 			}
 		}
 	}})
+	// ETA precision: remaining = items left x average duration per item, for per-item durations that are not whole
+	// nanoseconds (byte counts at hundreds of MB/s and more)
+	chunks = append(chunks, SeqChunk{Name: "c20-eta-precision", Gen: func(env *SeqEnv) {
+		for _, perItem := range []float64{0.4, 0.5, 0.7, 1.43, 2.5, 7.3, 999.6, 1e6 + 0.25} {
+			for _, left := range []int64{1000, 1e9, 1e11, 3e12} {
+				want := time.Duration(float64(left) * perItem)
+				if want >= 60*time.Hour {
+					continue
+				}
+				id := fmt.Sprintf("eta per-item=%gns left=%d", perItem, left)
+				env.Case(id, func() (string, bool, string, string) {
+					dec := decor.MovingAverageETA(decor.ET_STYLE_GO, constAverage(perItem), nil)
+					out, _ := dec.Decor(decor.Statistics{Total: left + 5, Current: 5})
+					got, err := time.ParseDuration(out)
+					// printed precision is one second; allow that plus a relative 1e-6 for float arithmetic
+					tol := time.Second + time.Duration(float64(want)*1e-6)
+					if err != nil || got < want-tol || got > want+tol {
+						return out, true, "eta-value", fmt.Sprintf("%d items left at %g ns per item: ETA printed %q, true value %v", left, perItem, out, want.Truncate(time.Second))
+					}
+					return out, want >= time.Second, "", ""
+				})
+			}
+		}
+	}})
 	// estimators: conservation of time over sample sequences
 	chunks = append(chunks, SeqChunk{Name: "c20-estimators", Gen: func(env *SeqEnv) {
 		type sample struct {
@@ -511,6 +535,37 @@ func c20Chunks(tier string) []SeqChunk {
 		if env.Pristine {
 			return
 		}
+		// a bar that is first drawn when it has already completed (a short task that finishes between two refreshes)
+		for _, el := range []time.Duration{time.Millisecond, 1500 * time.Millisecond, 90 * time.Second} {
+			for _, kind := range []string{"elapsed", "avgspeed"} {
+				id := fmt.Sprintf("clock first-frame-completed kind=%s elapsed=%v", kind, el)
+				env.Case(id, func() (string, bool, string, string) {
+					start := mcrt.Now()
+					var dec decor.Decorator
+					if kind == "elapsed" {
+						dec = decor.NewElapsed(decor.ET_STYLE_GO, start)
+					} else {
+						dec = decor.NewAverageSpeed(decor.SizeB1024(0), "% .1f", start)
+					}
+					mcrt.Advance(el)
+					st := decor.Statistics{Total: 1 << 20, Current: 1 << 20, Completed: true}
+					a, _ := dec.Decor(st)
+					mcrt.Advance(time.Hour)
+					b, _ := dec.Decor(st)
+					if a != b {
+						return "", true, "changes-after-completion", fmt.Sprintf("%s printed %q then %q after the bar completed", kind, a, b)
+					}
+					if kind == "elapsed" {
+						if got, err := time.ParseDuration(a); err != nil || got != el.Truncate(time.Second) {
+							return "", true, "elapsed-first-frame-completed", fmt.Sprintf("a bar first drawn completed after %v: elapsed printed %q", el, a)
+						}
+					} else if k, d := checkSize(a, int64(math.Round(float64(1<<20)/el.Seconds())), true, 'f', 1); k != "" {
+						return "", true, "avgspeed-first-frame-completed", fmt.Sprintf("a bar first drawn completed after %v: average speed printed %q (%s)", el, a, d)
+					}
+					return "", true, "", ""
+				})
+			}
+		}
 		for _, el := range []time.Duration{time.Nanosecond, time.Millisecond, 1500 * time.Millisecond, 90 * time.Second, 2 * time.Hour} {
 			for _, cur := range []int64{0, 1, 1 << 20, 1 << 40} {
 				for _, kind := range []string{"elapsed", "avgspeed", "avgeta"} {
@@ -548,6 +603,15 @@ func c20Chunks(tier string) []SeqChunk {
 								return "", true, "elapsed-value", fmt.Sprintf("elapsed %v printed as %q", el, a)
 							}
 						}
+						if kind == "avgeta" && cur > 0 && el >= time.Millisecond {
+							// remaining = (total-current) * elapsed/current = (cur+1)/cur * elapsed
+							want := time.Duration(float64(tot-cur) * float64(el) / float64(cur))
+							got, ok := parseClock(a)
+							tol := time.Second + time.Duration(float64(want)*1e-6)
+							if want < 60*time.Hour && (!ok || got < want-tol || got > want+tol) {
+								return "", true, "avgeta-value", fmt.Sprintf("%d of %d after %v: average ETA printed %q, true value %v", cur, tot, el, a, want.Truncate(time.Second))
+							}
+						}
 						if kind == "avgspeed" && cur > 0 {
 							want := float64(cur) / el.Seconds()
 							if want < float64(1<<62) {
@@ -564,6 +628,13 @@ func c20Chunks(tier string) []SeqChunk {
 	}})
 	return chunks
 }
+
+// constAverage is a moving average that has settled on one value.
+type constAverage float64
+
+func (c constAverage) Add(float64)    {}
+func (c constAverage) Set(float64)    {}
+func (c constAverage) Value() float64 { return float64(c) }
 
 func init() {
 	SeqFamilies["C20"] = c20Chunks
